@@ -133,7 +133,7 @@ fn run_status_race(case: &Case, out: &mut Out) {
       CompleteStatus::wait_for_end(status);
       let _ = tx.send(());
     });
-    match rx.recv_timeout(Duration::from_millis(400)) {
+    match rx.recv_timeout(Duration::from_millis(2500)) {
       Ok(()) => out.emit(k, "wait=returned".to_string()),
       Err(_) => out.emit(k, "wait=HANG".to_string()),
     }
